@@ -3888,6 +3888,10 @@ func _select(n *node) {
 	}
 
 	n.exec = func(f *frame) bltn {
+		// Work on a private copy of the cases, as several goroutines
+		// may execute this select statement concurrently.
+		cases := append([]reflect.SelectCase(nil), cases...)
+
 		f.mutex.RLock()
 		cases[nbClause] = f.done
 		f.mutex.RUnlock()
